@@ -62,7 +62,9 @@ def validate_gc(traces, v):
 def lang_corpus(rnd, n):
     out = []
     for i in range(n):
-        c = i % 9
+        c = i % 11
+        if c >= 9:
+            c = 5          # natives and iterators are where temporaries live: three slots out of eleven
         if c == 0:
             ast, _ = gen.program_c01(rnd)
         elif c == 1:
